@@ -38,7 +38,10 @@ func init() {
 			rs := mk([]int64{10000, 10000, 10000}, true, true, false, 3)
 			rs.Restart = true
 			jobs = append(jobs, registry.Job{Name: "restart-from-exported-genesis", Spec: rs, Depth: 5, ShardDepth: 2, NoConform: true})
+			// stakes that are not whole power units: the voters' stakes add up to one unit more than their powers do
+			jobs = append(jobs, registry.Job{Name: "fractional-stakes", Spec: mk([]int64{10050, 10050, 10400}, false, true, false, 3), Depth: 5, ShardDepth: 2})
 			if tier == "thorough" {
+				jobs[6].Depth = 7
 				jobs[5].Depth = 7
 				jobs[0].Depth = 8
 				jobs[1].Depth = 7
